@@ -292,7 +292,7 @@ TrReorg ==
 
 (* C18: eth_getLogs returns exactly the matching logs of the range, in chain order *)
 PosMatch(p, lg, i) ==
-  IF p.k = "any" THEN (IF i <= Len(lg.t) THEN "yes" ELSE "maybe")
+  IF p.k = "any" THEN "yes"                       \* null: this position is unconstrained, also beyond the log's last topic
   ELSE IF i > Len(lg.t) THEN "no"
   ELSE IF lg.t[i] \in {ToString(p.v[j]) : j \in DOMAIN p.v} THEN "yes" ELSE "no"
 
